@@ -2620,6 +2620,126 @@ class Normalizer:
                 self.stats['params_renamed_back'] = self.stats.get('params_renamed_back', 0) + 1
                 self.log.append(f'{rel}: parameters of {q} are read under the names of the design tree ({", ".join(f"{k}->{v}" for k, v in ren.items())})')
 
+    # ------------------------------------------------- moved definitions / new bases
+    def _rehome_moved_definitions(self):
+        """A top-level function / class of the inventory that is gone from its module while a definition of the same name
+        now lives in another module of the package was MOVED (and is imported back): it is read where the design tree
+        had it.  The imports of the module it came from are carried along."""
+        for rel, inv in self.inv.items():
+            tree = self.trees.get(rel)
+            if tree is None:
+                continue
+            present = {st.name for st in tree.body if isinstance(st, FuncNode + (ast.ClassDef,))}
+            want = {q for q in inv.get('functions', []) if '.' not in q} | {q for q in inv.get('classes', []) if '.' not in q}
+            for name in sorted(want - present):
+                homes = [(rel2, st) for rel2, t2 in self.trees.items() if rel2 != rel for st in t2.body if isinstance(st, FuncNode + (ast.ClassDef,)) and st.name == name]
+                if len(homes) != 1:
+                    continue
+                rel2, node = homes[0]
+                if name in {q for q in self.inv.get(rel2, {}).get('functions', []) + self.inv.get(rel2, {}).get('classes', [])}:
+                    continue  # it belongs there
+                # only when this module still refers to it (imports it back)
+                if not any(isinstance(n, ast.ImportFrom) and any(a.name == name for a in n.names) for n in ast.walk(tree)) and not any(isinstance(n, ast.Attribute) and n.attr == name for n in ast.walk(tree)):
+                    continue
+                self.trees[rel2].body.remove(node)
+                tree.body.append(node)
+                have = {ast.dump(st) for st in tree.body if isinstance(st, (ast.Import, ast.ImportFrom))}
+                k = 0
+                for st in self.trees[rel2].body:
+                    if isinstance(st, ast.Import) and ast.dump(st) not in have:
+                        tree.body.insert(k, copy.deepcopy(st))
+                        k += 1
+                    elif isinstance(st, ast.ImportFrom) and ast.dump(st) not in have and not (st.level and st.module is None and rel.endswith('__init__.py') is False and False):
+                        # relative imports are re-based only when both modules sit in the same package directory
+                        if st.level == 0 or os.path.dirname(rel2) == os.path.dirname(rel):
+                            tree.body.insert(k, copy.deepcopy(st))
+                            k += 1
+                # drop the import that brought the name back (it would shadow the definition for the loader)
+                for st in list(tree.body):
+                    if isinstance(st, ast.ImportFrom):
+                        st.names = [a for a in st.names if (a.asname or a.name) != name]
+                        if not st.names:
+                            tree.body.remove(st)
+                self.stats['rehomed'] = self.stats.get('rehomed', 0) + 1
+                self.log.append(f'{rel}: {name} (now defined in {rel2}) is read in the module the design tree has it in')
+                ast.fix_missing_locations(tree)
+
+    def _flatten_new_bases(self):
+        """A class of the inventory that now inherits from a NEW class of the package (a mixin / extracted base that the
+        design tree does not have) is read with the members of that class as its own: extracting a base class does not
+        change what the class does."""
+        all_classes = {}
+        for rel, tree in self.trees.items():
+            for st in tree.body:
+                if isinstance(st, ast.ClassDef):
+                    all_classes.setdefault(st.name, []).append((rel, st))
+        known = {c for inv in self.inv.values() for c in inv.get('classes', [])}
+        used_as_base = {}
+        for rel, tree in self.trees.items():
+            inv = self.inv.get(rel)
+            if inv is None:
+                continue
+            for st in tree.body:
+                if not (isinstance(st, ast.ClassDef) and st.name in inv.get('classes', [])):
+                    continue
+                for _round in range(3):
+                    changed = False
+                    for b in list(st.bases):
+                        bname = b.id if isinstance(b, ast.Name) else (b.attr if isinstance(b, ast.Attribute) else None)
+                        if bname is None or bname in known or len(all_classes.get(bname, [])) != 1:
+                            continue
+                        rel2, B = all_classes[bname][0]
+                        if B.decorator_list or B.keywords:
+                            continue
+                        own = {m.name for m in st.body if isinstance(m, FuncNode + (ast.ClassDef,))} | {t.id for m in st.body if isinstance(m, ast.Assign) for t in m.targets if isinstance(t, ast.Name)} | {m.target.id for m in st.body if isinstance(m, ast.AnnAssign) and isinstance(m.target, ast.Name)}
+                        add = []
+                        for m in B.body:
+                            nm = m.name if isinstance(m, FuncNode + (ast.ClassDef,)) else None
+                            if isinstance(m, ast.Expr) and isinstance(m.value, ast.Constant) and isinstance(m.value.value, str):
+                                continue
+                            if isinstance(m, ast.Assign):
+                                if any(isinstance(t, ast.Name) and t.id in own for t in m.targets):
+                                    continue
+                            elif isinstance(m, ast.AnnAssign) and isinstance(m.target, ast.Name) and m.target.id in own:
+                                continue
+                            elif nm is not None and nm in own:
+                                continue
+                            if isinstance(m, ast.Pass):
+                                continue
+                            add.append(copy.deepcopy(m))
+                        k = 1 if st.body and isinstance(st.body[0], ast.Expr) and isinstance(st.body[0].value, ast.Constant) and isinstance(st.body[0].value.value, str) else 0
+                        st.body[k:k] = add
+                        idx = st.bases.index(b)
+                        newb = [x for x in B.bases if ast.dump(x) not in {ast.dump(y) for y in st.bases}]
+                        st.bases[idx : idx + 1] = [copy.deepcopy(x) for x in newb]
+                        if rel2 != rel:
+                            have = {ast.dump(x) for x in tree.body if isinstance(x, (ast.Import, ast.ImportFrom))}
+                            k2 = 0
+                            for x in self.trees[rel2].body:
+                                if isinstance(x, ast.Import) and ast.dump(x) not in have:
+                                    tree.body.insert(k2, copy.deepcopy(x))
+                                    k2 += 1
+                        used_as_base.setdefault(bname, []).append(st.name)
+                        self.stats['flattened_bases'] = self.stats.get('flattened_bases', 0) + 1
+                        self.log.append(f'{rel}: {st.name} is read with the members of its new base {bname} as its own')
+                        changed = True
+                    if not changed:
+                        break
+                ast.fix_missing_locations(tree)
+        # a new base all of whose users were flattened and that nothing else mentions is dropped
+        for bname, users in used_as_base.items():
+            rel2, B = all_classes[bname][0]
+            others = [n for t in self.trees.values() for n in ast.walk(t) if (isinstance(n, ast.Name) and n.id == bname) or (isinstance(n, ast.Attribute) and n.attr == bname) or (isinstance(n, ast.alias) and n.name == bname)]
+            if not [n for n in others if not isinstance(n, ast.alias)]:
+                if B in self.trees[rel2].body:
+                    self.trees[rel2].body.remove(B)
+                for t in self.trees.values():
+                    for st in list(t.body):
+                        if isinstance(st, ast.ImportFrom):
+                            st.names = [a for a in st.names if a.name != bname]
+                            if not st.names:
+                                t.body.remove(st)
+
     # ------------------------------------------------------------ re-outline
     def _reoutline(self):
         """A single-exit method of the inventory that no longer exists, while its statements (up to a renaming of
@@ -2749,6 +2869,8 @@ class Normalizer:
         return x == y and y not in rm
 
     def run(self):
+        self._rehome_moved_definitions()
+        self._flatten_new_bases()
         self._reoutline()
         self._class_index()
         self._rehome_methods()
